@@ -169,7 +169,7 @@ def path(ctx, params):
     out = None
     if ctx.model_valid:
         try:
-            out = [float(v.v) if not v.is_symbolic else ctx.eval_float(v.v) for v in xc]
+            out = [v.eval_float(ctx) for v in xc]
         except Exception:
             out = None
     return dict(cls="free=%d" % sum(1 for b in moving if b), out=out)
